@@ -97,6 +97,21 @@ class FuncInfo:
     def key(self):
         return '%s:%s' % (self.module.relpath, self.qualname)
 
+    def local_names(self):
+        """parameters and assigned names of the function in order of first occurrence in the source (used to recognise renames)"""
+        assigned = set(a.arg for a in self.node.args.args)
+        for n in ast.walk(self.node):
+            if isinstance(n, ast.Name) and isinstance(n.ctx, ast.Store):
+                assigned.add(n.id)
+        names = [n for n in ast.walk(self.node) if isinstance(n, (ast.Name, ast.arg))]
+        names.sort(key=lambda n: (n.lineno, n.col_offset))
+        out = []
+        for n in names:
+            nm = n.id if isinstance(n, ast.Name) else n.arg
+            if nm in assigned and nm != 'self' and nm not in out:
+                out.append(nm)
+        return out
+
     def __repr__(self):
         return '<FuncInfo %s>' % self.key
 
